@@ -517,9 +517,9 @@ def gen_raw(rng, tier):
 
 # ---- programs -------------------------------------------------------------------------------------
 MODNAMES = ["ma", "mb", "mc", "exceptions", "__builtin__", "m\u00fc"]
-DIRNAMES = ["d", "d", "my dir", "\u0434\u0438\u0440", "q\"t", "sp  x"]
+DIRNAMES = ["d", "d", "my dir", "\u0434\u0438\u0440", "q\"t", "sp  x", "n\nl"]
 KINDS = ["func", "func", "func", "lambda", "method", "static", "nested", "gen", "genexpr", "rec", "exec", "deco",
-         "prop", "closure", "execsrc", "execsrc"]
+         "prop", "closure", "execsrc", "execsrc", "coro"]
 STMTS = ["return {nx}(n)", "x = {nx}(n); return x", "return ({nx}(\n        n))", "if n == 0:\n        return {nx}(n)   # c: d",
          "try:\n        return {nx}(n)\n    finally:\n        pass", "for _ in [0]:\n        return {nx}(n)",
          "return {nx}(n)   ", "return {nx}(n)  # \u00fcn\u00ef \u2713", "return   {nx}( n )", "r = [{nx}(n) for _ in [0]]; return r[0]",
@@ -581,6 +581,9 @@ def gen_ei(rng, tier, mods=None, depths=(1, 1, 2, 3, 3, 4, 5, 6, 8, 12), probe=F
             body = "def c%d(n):\n    x = n  # only via the loader\n    return _m.%s(x)\n" % (i, nx)
             code = ("_g%d = {'__name__': 'virt%d', '_m': sys.modules[__name__], '__loader__': _SrcLoader(%r)}\n"
                     "exec(compile(%r, 'memory:/virt%d.py', 'exec'), _g%d)\nc%d = _g%d['c%d']" % (i, i, body, body, i, i, i, i, i))
+        elif kind == "coro":
+            code = ("async def a%d(n):\n    return %s(n)\ndef c%d(n):\n    co = a%d(n)\n    try:\n        co.send(None)\n"
+                    "    except StopIteration as stop:\n        return stop.value\n    finally:\n        co.close()" % (i, nx, i, i))
         elif kind == "deco":
             code = ("def deco%d(f):\n    def wrapper(*a):\n        return f(*a)\n    return wrapper\n@deco%d\ndef c%d(n):\n    %s"
                     % (i, i, i, stmt))
@@ -600,7 +603,7 @@ def gen_ei(rng, tier, mods=None, depths=(1, 1, 2, 3, 3, 4, 5, 6, 8, 12), probe=F
     else:
         args = repr(msg)
     how = rng.choice(["builtin", "builtin", "user", "nestedcls", "local", "fakemod", "customstr", "div", "index", "key",
-                      "oserror", "assert", "othermod", "bare", "builtin", "user", "nameerr", "attrerr", "importerr", "badstr"])
+                      "oserror", "assert", "othermod", "bare", "builtin", "user", "nameerr", "attrerr", "importerr", "badstr", "baseexc"])
     expect = None
     if probe:
         how = "probe"
@@ -650,6 +653,10 @@ def gen_ei(rng, tier, mods=None, depths=(1, 1, 2, 3, 3, 4, 5, 6, 8, 12), probe=F
     elif how == "assert":
         body = "assert n, (%s)" % (args or "'m'") if rng.random() < 0.7 else "assert n"
         expect = "AssertionError"
+    elif how == "baseexc":
+        t = rng.choice(["KeyboardInterrupt", "SystemExit", "GeneratorExit", "BaseException"])
+        body = "raise %s" % t if args is None else "raise %s(%s)" % (t, args)
+        expect = t
     elif how == "probe":
         # no exception: the innermost callable asks for the current call stack
         body = rng.choice(["return PROBE()", "x = PROBE(); return x", "return (PROBE(\n    ))"])
@@ -901,12 +908,21 @@ def _edit(d, how, step, mods):
                     f.write("# pad\n" * step["pad"] + text)
 
 
+try:
+    from common import CaseTimeout as CaseTimeoutLike
+except Exception:                       # pragma: no cover
+    class CaseTimeoutLike(Exception):
+        pass
+
+
 def _raise_through(entry, expect):
     from boltons import tbutils
     cur = None
     try:
         entry(0)
-    except Exception as e:     # the exception under observation
+    except BaseException as e:     # the exception under observation
+        if isinstance(e, CaseTimeoutLike):
+            raise
         exc = e
         # the constructors that take "the exception being handled" (no source line is read here)
         cur = (tbutils.ExceptionInfo.from_current(), tbutils.TracebackInfo.from_traceback())
